@@ -4,7 +4,7 @@
    cfg     five 0/1 flags (fix_zero_ptr fix_fail_len fix_nested_al fix_anchor fix_sv)
    shape   <size>:<C|P>:[<off>@<kind>,...]   kinds F<n> B S X<n> A R<esz>[..] I J N[..] M<vsz>[..]
    regions hex;hex;...  ('.' = empty region, '~' = none)
-   iov     r:off:len,...  ('~' = none)           ops  '~' | I | F:<hexkey> (comma separated)
+   iov     r:off:len,...  ('~' = none)           ops  '~' | '~x' (none; x marks an altered copy of a valid checked stream, for the oracle) | I | F:<hexkey> (comma separated)
    One output line per case, same format as harness/C12/harness.cpp. *)
 let rec int_of_pos p = match p with XH -> 1 | XO q -> 2 * int_of_pos q | XI q -> 2 * int_of_pos q + 1
 let sint = function Z0 -> 0 | Zpos p -> int_of_pos p | Zneg p -> - (int_of_pos p)
@@ -142,7 +142,7 @@ let () =
                          (iovdump st.d_iov) (zs st.d_iov.i_nb) (memdump st.d_mem) in
             if t = Z0 then head ^ " walk=- ops=- mem2=-" else begin
               let its = ok (w_fields c sh.sh_fields st.d_mem t) in
-              if ops = "~" then head ^ " walk=" ^ show_items its ^ " ops=- mem2=-"
+              if ops.[0] = '~' then head ^ " walk=" ^ show_items its ^ " ops=- mem2=-"
               else begin
                 let (o, m2) = run_ops c sh st.d_mem t ops in
                 head ^ " walk=" ^ show_items its ^ " ops=" ^ o ^ " mem2=" ^ memdump m2
